@@ -224,6 +224,14 @@ theorem gcm_wrong_nonce_refused (key nonce x aad : Bytes) (h : nonce.length ≠ 
   rw [e]
   constructor <;> (split <;> simp [h, Res.isOk])
 
+/-- ChaCha20/Poly1305 takes nonces of exactly 12 octets: no 64-bit-nonce variant (8), no XChaCha (24) -/
+theorem chacha_wrong_nonce_refused (key nonce x aad : Bytes) (h : nonce.length ≠ 12) :
+    ¬ (chachaEncrypt key nonce x aad).isOk ∧ ¬ (chachaDecrypt key nonce x aad).isOk := by
+  have e : chachaNonceSize = 12 := by decide +kernel
+  unfold chachaEncrypt chachaDecrypt
+  rw [e]
+  constructor <;> (split <;> simp [h, Res.isOk])
+
 -- non-vacuity (tests, labelled as tests)
 #guard (ccmEncrypt 10 (zeros 16) (zeros 13) [1, 2, 3] [4]).isOk
 #guard (gcmEncrypt (zeros 16) (zeros 12) [1, 2, 3] [4]).isOk
